@@ -9,15 +9,21 @@ from common import Run, run_driver
 
 LEVEL = (
     "Lean theorems (Props/C11.lean) about the model of TagAttributes/Attribute over lxml's store (Clark keys, the in-scope "
-    "default namespace, the per-qualified-name view cache): for every operation sequence, iteration, length, membership and "
-    "lookup equal those of a dictionary keyed by canonical (namespace, name); the three accessor forms of one attribute reach "
-    "the same entry; a cached view's value is the dictionary value while attached and its last value after removal through "
-    "the same qualified name. The unchanged code does not keep *every* earlier view informed (recorded findings), so the "
-    "view part is partial. Correspondence: operation sequences through the mapping, through node subscripts and through held "
-    "Attribute objects on five element contexts vs the compiled model after every step; property oracle: a plain dict."
+    "default namespace, the cache of Attribute objects per store key): for every operation sequence, iteration, length, "
+    "membership and lookup equal those of a dictionary keyed by canonical (namespace, name); the three accessor forms of one "
+    "attribute reach the same entry; in every reachable state (invariant ViewsOk, preserved by every operation) an attached "
+    "attribute object shows and writes the dictionary value of its name, is kept by assignments, is detached with its last "
+    "value by a removal through any spelling or by being superseded, and a rename moves the dictionary entry while the "
+    "object stays live; equality of two collections is equality of the dictionaries of reported names. Correspondence: "
+    "operation sequences through the mapping, through node subscripts and through held Attribute objects on nine element "
+    "contexts vs the compiled model after every step, pairs of contexts compared with == in both orders, comparisons with "
+    "plain dicts; property oracle: a plain dict plus a record per held Attribute object, checked after every step."
 )
 ASSUME = [
     "lxml's _Attrib keeps insertion order and Clark keys; the element is not re-parented during a sequence (C01/C10 finding)",
+    "storeOk: no key of the wrapped lxml mapping carries the default namespace in scope in Clark form - true for elements "
+    "built through delb and for parsed elements unless an attribute is written with a prefix bound to the same URI as the "
+    "default namespace (there the library violates the property: fixed corpus case prefixed-attribute-in-default-namespace)",
 ]
 
 CONTEXTS = [
@@ -36,6 +42,13 @@ CONTEXTS = [
      "child": True, "detach": True},
 ]
 
+# elements on which the library violates the property (each belongs to one finding key of known_findings.json; not
+# part of the random streams): here lxml keeps the key `{urn:u}a` although urn:u is the default namespace in scope
+DEFECT_CONTEXTS = [
+    {"name": "prefix bound to the default namespace", "xml": '<e xmlns="urn:u" xmlns:p="urn:u" p:a="1" b="2"/>',
+     "node_ns": "urn:u", "default_ns": "urn:u", "finding": "prefixed-attribute-in-default-namespace"},
+]
+
 
 def make_node(ctx):
     """the element of a context; returns (keep-alive, node)"""
@@ -51,9 +64,16 @@ def make_node(ctx):
             node = node.detach()
     if node.namespace != ctx["node_ns"] or (node._etree_obj.nsmap.get(None) or "") != ctx["default_ns"]:
         raise common.ToolFailure(f"context {ctx['name']} is not what its description says")
+    # the region of finding prefixed-attribute-in-default-namespace is entered by its own fixed case only
+    in_region = any(k.startswith("{%s}" % ctx["default_ns"]) for k in node._etree_obj.attrib) if ctx["default_ns"] else False
+    if in_region != bool(ctx.get("finding")):
+        raise common.ToolFailure(f"context {ctx['name']}: a Clark key carries the default namespace (or the defect context does not)")
     return keep, node
+
+
 NAMES = ["a", "b", "c"]
 NSS = ["", "urn:u", "urn:q"]
+VALUES = ["x", "y", "", "z z", "1"]
 
 
 def gen_accessor(rng, ctx):
@@ -67,35 +87,52 @@ def gen_accessor(rng, ctx):
     return ["pair", ns, n]
 
 
+def gen_op(rng, ctx):
+    r = rng.random()
+    acc = gen_accessor(rng, ctx)
+    via = "node" if rng.random() < 0.3 else "mapping"
+    if r < 0.16:
+        return {"op": "set", "acc": acc, "value": rng.choice(VALUES), "via": via}
+    if r < 0.25:
+        return {"op": "del", "acc": acc, "via": via}
+    if r < 0.41:
+        return {"op": "get", "acc": acc, "via": via}
+    if r < 0.48:
+        return {"op": "pop", "acc": acc}
+    if r < 0.53:
+        return {"op": "contains", "acc": acc, "via": via}
+    if r < 0.57:
+        return {"op": "getvalue", "acc": acc}
+    if r < 0.61:
+        return {"op": "iter"}
+    if r < 0.64:
+        return {"op": "len"}
+    if r < 0.68:
+        items = [[gen_accessor(rng, ctx), rng.choice(VALUES)] for _ in range(rng.randint(0, 3))]
+        return {"op": "update", "items": items}
+    if r < 0.70:
+        return {"op": "popitem"}
+    if r < 0.71:
+        return {"op": "clear"}
+    if r < 0.74:
+        return {"op": "setdefault", "acc": acc, "value": rng.choice(VALUES)}
+    if r < 0.77:
+        return {"op": "set_view", "acc": acc, "pick": rng.random()}
+    if r < 0.81:
+        return {"op": "eq_mapping", "form": rng.choice(["tuples", "clark", "canonical", "changed", "missing", "extra"]),
+                "pick": rng.random()}
+    if r < 0.85:
+        return {"op": "view_value", "pick": rng.random()}
+    if r < 0.87:
+        return {"op": "view_name", "pick": rng.random()}
+    if r < 0.92:
+        return {"op": "view_set", "pick": rng.random(), "value": rng.choice(["v1", "v2"])}
+    return {"op": "view_rename", "pick": rng.random(), "ns": rng.choice(NSS), "name": rng.choice(NAMES),
+            "by": rng.choice(["key", "parts"])}
+
+
 def gen_ops(rng, ctx, length):
-    ops = []
-    views = 0
-    for _ in range(length):
-        r = rng.random()
-        acc = gen_accessor(rng, ctx)
-        if r < 0.22:
-            ops.append({"op": "set", "acc": acc, "value": rng.choice(["x", "y", "", "z z"])})
-        elif r < 0.32:
-            ops.append({"op": "del", "acc": acc})
-        elif r < 0.5:
-            ops.append({"op": "get", "acc": acc})
-        elif r < 0.58:
-            ops.append({"op": "pop", "acc": acc})
-        elif r < 0.66:
-            ops.append({"op": "contains", "acc": acc})
-        elif r < 0.72:
-            ops.append({"op": "getvalue", "acc": acc})
-        elif r < 0.78:
-            ops.append({"op": "iter"})
-        elif r < 0.82:
-            ops.append({"op": "len"})
-        elif r < 0.9:
-            ops.append({"op": "view_value", "pick": rng.random()})
-        elif r < 0.95:
-            ops.append({"op": "view_set", "pick": rng.random(), "value": rng.choice(["v1", "v2"])})
-        else:
-            ops.append({"op": "view_rename", "pick": rng.random(), "ns": rng.choice(NSS), "name": rng.choice(NAMES)})
-    return ops
+    return [gen_op(rng, ctx) for _ in range(length)]
 
 
 def to_accessor(acc):
@@ -110,156 +147,355 @@ def canon(ctx, q):
     return ("", q[1]) if q[0] == ctx["default_ns"] else tuple(q)
 
 
+def reported(ctx, q):
+    """the name iteration yields for a canonical name"""
+    return (q[0] or ctx["default_ns"], q[1])
+
+
 def resolve(ctx, acc):
     if acc[0] == "local":
         return (ctx["node_ns"], acc[1])
     return (acc[1], acc[2])
 
 
-def run_impl(ctx, ops):
-    """returns per-op results (canonical JSON), the ops with view indexes resolved, and property problems"""
+def node_dict(ctx, node):
+    """what the element itself carries (through lxml, not through delb), keyed by canonical names"""
+    from lxml import etree
+
+    out = {}
+    for k, v in node._etree_obj.attrib.items():
+        q = etree.QName(k)
+        out[canon(ctx, (q.namespace or "", q.localname))] = v
+    return out
+
+
+def mapping_items(ctx, spec, form, pick):
+    """a plain dict (as a list of [accessor, value]) to compare the collection with, and what `==` has to say"""
+    names = list(spec)
+    if form == "tuples":
+        items = [[["pair", *reported(ctx, q)], spec[q]] for q in names]
+    elif form == "canonical":
+        items = [[["pair", *q], spec[q]] for q in names]
+    elif form == "clark":
+        # `universal_name`: a name in no namespace is a bare local name
+        items = [[(["clark", *reported(ctx, q)] if reported(ctx, q)[0] else ["local", q[1]]), spec[q]] for q in names]
+    else:
+        items = [[["pair", *reported(ctx, q)], spec[q]] for q in names]
+        if form == "changed" and items:
+            items[int(pick * len(items)) % len(items)][1] += "!"
+        elif form == "missing" and items:
+            del items[int(pick * len(items)) % len(items)]
+        elif form == "extra":
+            items.append([["pair", "urn:none", "zz"], "1"])
+    return items
+
+
+class Oracle:
+    """the dictionary of the property statement and one record per held Attribute object"""
+
+    def __init__(self, ctx, node):
+        self.ctx = ctx
+        self.spec = node_dict(ctx, node)
+        self.held = []  # per view index: {"live": bool, "key": canonical name, "last": value}
+
+    def key(self, acc):
+        return canon(self.ctx, resolve(self.ctx, acc))
+
+    def obtained(self, i, key, live):
+        if self.held[i] is None:
+            self.held[i] = {"live": live, "key": key, "last": self.spec.get(key)}
+            return None
+        h = self.held[i]
+        if not (h["live"] and h["key"] == key):
+            return "lookup returned an attribute object that was removed or belongs to another attribute"
+        return None
+
+    def assign(self, key, value):
+        self.spec[key] = value
+        for h in self.held:
+            if h and h["live"] and h["key"] == key:
+                h["last"] = value
+
+    def remove(self, key):
+        value = self.spec.pop(key)
+        for h in self.held:
+            if h and h["live"] and h["key"] == key:
+                h["live"], h["last"] = False, value
+
+
+def run_impl(ctx, ops, other=None):
+    """returns per-op results (canonical JSON), the ops with view indexes and generated payloads resolved, property
+    problems and the final dictionaries; `other` is (ctx, node) of a second collection for `eq`"""
     d, node = make_node(ctx)
     A = node.attributes
-    spec = {}
-    for k, v in node._etree_obj.attrib.items():
-        from lxml import etree
-
-        q = etree.QName(k)
-        spec[canon(ctx, (q.namespace or "", q.localname))] = v
-    views = []        # (object, model view id)
-    last = {}         # view index -> last known value, canonical key it denotes
+    orc = Oracle(ctx, node)
+    spec = orc.spec
+    views = []
     results, resolved, problems = [], [], []
-    next_view = 0
     obj_ids = {}
 
     def view_id(obj):
-        nonlocal next_view
         if id(obj) not in obj_ids:
             obj_ids[id(obj)] = len(views)
             views.append(obj)
+            orc.held.append(None)
         return obj_ids[id(obj)]
 
+    def fetched(obj, key, op, live=True):
+        i = view_id(obj)
+        why = orc.obtained(i, key, live)
+        if why:
+            problems.append({"why": why, "op": op, "view": i})
+        return i
+
+    def check_state(op):
+        """after every step: the element carries the dictionary; every held object behaves as the statement says"""
+        real = node_dict(ctx, node)
+        if real != spec:
+            problems.append({"why": "the node's attributes differ from the dictionary", "op": op,
+                             "node": sorted(real.items()), "dict": sorted(spec.items())})
+        for i, (v, h) in enumerate(zip(views, orc.held)):
+            if h is None:
+                continue
+            try:
+                value = v.value
+            except Exception as e:  # noqa: BLE001
+                problems.append({"why": f"a held attribute object lost its value ({type(e).__name__})", "op": op, "view": i})
+                continue
+            if h["live"]:
+                if h["key"] not in spec:
+                    # only after a reported violation (two live objects for one attribute)
+                    if not problems:
+                        raise common.ToolFailure("oracle: live object without dictionary entry")
+                    continue
+                if value != spec[h["key"]]:
+                    problems.append({"why": "a held attribute object does not show the current value of its attribute",
+                                     "op": op, "view": i, "value": value, "dict": spec[h["key"]]})
+                if canon(ctx, (v.namespace, v.local_name)) != h["key"]:
+                    problems.append({"why": "a held attribute object reports another name than its attribute has",
+                                     "op": op, "view": i, "name": [v.namespace, v.local_name], "dict": list(h["key"])})
+                # it is *the* object of the attribute, under every spelling (nothing is created by these lookups then)
+                for spelling in {h["key"], reported(ctx, h["key"])}:
+                    if spelling not in A or A[spelling] is not v:
+                        problems.append({"why": "a held attribute object is not the live object of its attribute any more",
+                                         "op": op, "view": i, "spelling": list(spelling)})
+            elif value != h["last"]:
+                problems.append({"why": "a removed attribute object did not keep its last value", "op": op, "view": i,
+                                 "value": value, "last": h["last"]})
+
     for op in ops:
-        o = dict(op)
+        o = {kk: vv for kk, vv in op.items() if kk != "pick"}
         k = op["op"]
+        target = node if op.get("via") == "node" else A
+        res = None
         try:
+            if k in ("view_value", "view_name", "view_set", "view_rename", "set_view"):
+                if not views:
+                    results.append(None)
+                    resolved.append(None)
+                    continue
+                i = int(op["pick"] * len(views)) % len(views)
+                o["view"] = i
+                v, h = views[i], orc.held[i]
+                if h is None:  # an object that a violating call returned
+                    results.append(None)
+                    resolved.append(None)
+                    continue
             if k == "set":
-                A[to_accessor(op["acc"])] = op["value"]
-                spec[canon(ctx, resolve(ctx, op["acc"]))] = op["value"]
+                target[to_accessor(op["acc"])] = op["value"]
+                orc.assign(orc.key(op["acc"]), op["value"])
+                res = "ok"
+            elif k == "set_view":
+                # assigning an attribute object assigns its value
+                A[to_accessor(op["acc"])] = v
+                orc.assign(orc.key(op["acc"]), spec[h["key"]] if h["live"] else h["last"])
+                res = "ok"
+            elif k == "update":
+                arg = {}
+                for acc, value in op["items"]:
+                    arg[to_accessor(acc)] = value
+                o["items"] = [[acc, arg[to_accessor(acc)]] for n, (acc, _) in enumerate(op["items"])
+                              if to_accessor(acc) not in [to_accessor(a) for a, _ in op["items"][:n]]]
+                A.update(arg)
+                for acc, value in o["items"]:
+                    orc.assign(orc.key(acc), value)
                 res = "ok"
             elif k == "del":
-                key = canon(ctx, resolve(ctx, op["acc"]))
+                key = orc.key(op["acc"])
                 try:
-                    del A[to_accessor(op["acc"])]
+                    del target[to_accessor(op["acc"])]
                     res = "ok"
                     if key not in spec:
                         problems.append({"why": "deleting a missing attribute did not raise", "op": op})
-                    spec.pop(key, None)
+                    else:
+                        orc.remove(key)
                 except KeyError:
                     res = "KeyError"
                     if key in spec:
                         problems.append({"why": "deleting an existing attribute raised KeyError", "op": op})
             elif k in ("get", "pop"):
-                key = canon(ctx, resolve(ctx, op["acc"]))
+                key = orc.key(op["acc"])
                 try:
-                    v = A[to_accessor(op["acc"])] if k == "get" else A.pop(to_accessor(op["acc"]))
-                    res = {"view": view_id(v)}
+                    v = target[to_accessor(op["acc"])] if k == "get" else A.pop(to_accessor(op["acc"]))
                     if key not in spec:
                         problems.append({"why": f"{k} of a missing attribute returned a value", "op": op})
-                    elif v.value != spec[key]:
-                        problems.append({"why": f"{k} returned a wrong value", "op": op, "value": v.value, "dict": spec[key]})
-                    if k == "pop":
-                        spec.pop(key, None)
+                        res = {"view": view_id(v)}
+                    else:
+                        if v.value != spec[key]:
+                            problems.append({"why": f"{k} returned a wrong value", "op": op, "value": v.value, "dict": spec[key]})
+                        res = {"view": fetched(v, key, op)}
+                        if k == "pop":
+                            orc.remove(key)
                 except KeyError:
                     res = "KeyError"
                     if key in spec:
                         problems.append({"why": f"{k} of an existing attribute raised KeyError", "op": op})
+            elif k == "popitem":
+                try:
+                    name, v = A.popitem()
+                    key = canon(ctx, name)
+                    if key not in spec:
+                        problems.append({"why": "popitem returned a name that is not in the dictionary", "op": op, "name": list(name)})
+                        res = {"name": list(name), "view": view_id(v)}
+                    else:
+                        if v.value != spec[key]:
+                            problems.append({"why": "popitem returned a wrong value", "op": op, "value": v.value, "dict": spec[key]})
+                        res = {"name": list(name), "view": fetched(v, key, op)}
+                        orc.remove(key)
+                except KeyError:
+                    res = "KeyError"
+                    if spec:
+                        problems.append({"why": "popitem raised KeyError on a non-empty collection", "op": op})
+            elif k == "clear":
+                A.clear()
+                for key in list(spec):
+                    orc.remove(key)
+                res = "ok"
+            elif k == "setdefault":
+                key = orc.key(op["acc"])
+                v = A.setdefault(to_accessor(op["acc"]), op["value"])
+                if key in spec:
+                    if isinstance(v, str):
+                        problems.append({"why": "setdefault of an existing attribute returned the default", "op": op})
+                        res = {"value": v}
+                    else:
+                        res = {"view": fetched(v, key, op)}
+                else:
+                    if v != op["value"] or not isinstance(v, str):
+                        problems.append({"why": "setdefault of a missing attribute did not return the default", "op": op})
+                    orc.assign(key, op["value"])
+                    res = {"value": str(v)}
             elif k == "contains":
-                res = to_accessor(op["acc"]) in A
-                if res != (canon(ctx, resolve(ctx, op["acc"])) in spec):
+                res = to_accessor(op["acc"]) in target
+                if res != (orc.key(op["acc"]) in spec):
                     problems.append({"why": "membership differs from the dictionary", "op": op})
             elif k == "getvalue":
                 v = A.get(to_accessor(op["acc"]))
                 res = None if v is None else {"value": v.value}
-                want = spec.get(canon(ctx, resolve(ctx, op["acc"])))
+                want = spec.get(orc.key(op["acc"]))
                 if (None if v is None else v.value) != want:
                     problems.append({"why": "lookup differs from the dictionary", "op": op, "dict": want})
             elif k == "iter":
                 res = [list(q) for q in A]
                 if sorted(canon(ctx, q) for q in A) != sorted(spec) or len(set(map(tuple, res))) != len(res):
                     problems.append({"why": "iteration differs from the dictionary", "iter": res, "dict": sorted(spec)})
+                if any(tuple(q) != reported(ctx, canon(ctx, q)) for q in res):
+                    problems.append({"why": "iteration yields a name in another form than (default namespace or given, name)", "iter": res})
             elif k == "len":
                 res = len(A)
                 if res != len(spec):
                     problems.append({"why": "length differs from the dictionary", "len": res, "dict": len(spec)})
-            elif k in ("view_value", "view_set", "view_rename"):
-                if not views:
-                    results.append(None)
-                    resolved.append(None)
-                    continue
-                i = int(op["pick"] * len(views)) % len(views)
-                o = {kk: vv for kk, vv in op.items() if kk != "pick"}
-                o["view"] = i
-                v = views[i]
-                if k == "view_value":
-                    try:
-                        res = {"value": v.value}
-                    except KeyError:
-                        res = "KeyError"
-                        problems.append({"why": "a held attribute object lost its value (KeyError)", "view": i, "stale": True})
-                elif k == "view_set":
-                    v.value = op["value"]
-                    res = "ok"
-                    if v._attributes is not None:
-                        spec[canon(ctx, v._qualified_name)] = op["value"]
-                elif v._attributes is None:
-                    # renaming an attribute object that was removed from its node is outside the property
-                    results.append(None)
-                    resolved.append(None)
-                    continue
-                elif (canon(ctx, (op["ns"], op["name"])) == canon(ctx, v._qualified_name)
-                      and (op["ns"], op["name"]) != tuple(v._qualified_name) and not op.get("replay_known")):
-                    # renaming to the other spelling of the same name: recorded finding `rename-to-alias-deletes`
-                    results.append(None)
-                    resolved.append(None)
-                    continue
+            elif k == "eq_mapping":
+                o["items"] = mapping_items(ctx, spec, op["form"], op["pick"])
+                arg = {to_accessor(acc): value for acc, value in o["items"]}
+                if len(arg) != len(o["items"]):
+                    raise common.ToolFailure("generated mapping has colliding keys")
+                res = A == arg
+                want = len(arg) == len(spec) and all(spec.get(orc.key(acc)) == value for acc, value in o["items"])
+                if res != want or (arg != A) == res:
+                    problems.append({"why": "comparison with a plain mapping differs from comparing the dictionaries",
+                                     "op": o, "result": res, "dict": sorted(spec.items())})
+            elif k == "eq":
+                octx, onode, ospec, _ = other
+                B = onode.attributes
+                res = [A == B, B == A]
+                want = ({reported(ctx, q): x for q, x in spec.items()} == {reported(octx, q): x for q, x in ospec.items()})
+                if res != [want, want] or (A != B) == want:
+                    problems.append({"why": "equality of two collections differs from equality of their dictionaries",
+                                     "result": res, "dict": sorted(spec.items()), "other": sorted(ospec.items()),
+                                     "other_ctx": octx["name"]})
+            elif k == "view_value":
+                try:
+                    res = {"value": v.value}
+                except KeyError:
+                    res = "KeyError"  # reported by check_state
+            elif k == "view_name":
+                res = [v.namespace, v.local_name]
+                if v.universal_name != ("{%s}%s" % tuple(res) if res[0] else res[1]):
+                    problems.append({"why": "universal_name is not the Clark notation of namespace and local name", "op": o})
+            elif k == "view_set":
+                v.value = op["value"]
+                res = "ok"
+                if h["live"]:
+                    orc.assign(h["key"], op["value"])
                 else:
-                    try:
-                        old = canon(ctx, v._qualified_name)
-                        was_attached = v._attributes is not None
-                        val = None if tuple(v._qualified_name) == (op["ns"], op["name"]) else v.value
+                    h["last"] = op["value"]
+            elif k == "view_rename":
+                new = canon(ctx, (op["ns"], op["name"]))
+                try:
+                    if op.get("by", "key") == "key":
                         v._set_new_key(op["ns"], op["name"])
-                        res = "ok"
-                        if was_attached and tuple(v._qualified_name) != tuple(old) or True:
-                            if was_attached and val is not None:
-                                new = canon(ctx, (op["ns"], op["name"]))
-                                if new != old:
-                                    spec.pop(old, None)
-                                spec[new] = val
-                    except (KeyError, AssertionError) as e:
-                        res = "KeyError"
-                        problems.append({"why": f"renaming through a held attribute object raised {type(e).__name__}", "view": i, "stale": True})
+                    else:
+                        # the public setters; two steps (an intermediate name) unless only one part changes
+                        if v.namespace != op["ns"] and v.local_name != op["name"]:
+                            o["by"] = "key"
+                            v._set_new_key(op["ns"], op["name"])
+                        elif v.namespace != op["ns"]:
+                            v.namespace = op["ns"]
+                        else:
+                            v.local_name = op["name"]
+                    res = "ok"
+                    if h["live"] and new != h["key"]:
+                        value = spec[h["key"]]
+                        if new in spec:
+                            orc.remove(new)  # superseded: its objects keep their last value
+                        old = h["key"]
+                        h["key"] = new
+                        del spec[old]
+                        spec[new] = value
+                    elif not h["live"] and (v.namespace, v.local_name) != (op["ns"], op["name"]):
+                        problems.append({"why": "renaming a removed attribute object did something", "op": o})
+                except AssertionError:
+                    # renaming an attribute object that was removed from its node is outside the property
+                    res = "KeyError"
+                    if h["live"]:
+                        problems.append({"why": "renaming through a held attribute object raised AssertionError", "op": o})
+                except KeyError:
+                    res = "KeyError"
+                    problems.append({"why": "renaming through a held attribute object raised KeyError", "op": o})
             else:
                 raise ValueError(k)
+        except common.ToolFailure:
+            raise
         except Exception as e:  # noqa: BLE001
             res = f"EXC {type(e).__name__}"
             problems.append({"why": f"operation raised {type(e).__name__}: {e}", "op": op})
+        check_state(o)
         results.append(res)
         resolved.append(o)
-    # final state: the mapping equals the dictionary
-    final = {canon(ctx, q): A[q].value for q in A}
+    # final state: the mapping equals the dictionary (through the public interface)
+    try:
+        final = {canon(ctx, q): A[q].value for q in A}
+    except KeyError as e:
+        final = {}
+        problems.append({"why": f"reading the mapping through the names it iterates raised KeyError {e}"})
     if final != spec:
         problems.append({"why": "final mapping differs from the dictionary", "mapping": sorted(final.items()), "dict": sorted(spec.items())})
-    return results, resolved, problems, sorted([k[0], k[1], v] for k, v in final.items())
+    return results, resolved, problems, sorted([k[0], k[1], v] for k, v in final.items()), (ctx, node, spec, d)
 
 
-def is_known(problem):
-    for f in common.known_findings("C11"):
-        if f.get("status") != "open":
-            continue
-        if f["key"] == "stale-attribute-view" and problem.get("stale"):
-            return f["key"]
-    return None
+def open_findings():
+    return {f["key"]: f for f in common.known_findings("C11") if f.get("status") == "open"}
 
 
 def gen_case(rng):
@@ -267,37 +503,102 @@ def gen_case(rng):
     return {"ctx": ctx["name"], "ops": gen_ops(rng, ctx, rng.randint(4, 14))}
 
 
+def no_eq_ops(ops):
+    return [o for o in ops if o["op"] != "eq"]
+
+
+def gen_eq_case(rng):
+    """two collections after a few operations each, compared in both orders; the second history is often the first one
+    (on another element context) or a slight variation, so that equal and almost equal collections are common"""
+    c1, c2 = rng.choice(CONTEXTS), rng.choice(CONTEXTS)
+    ops1 = gen_ops(rng, c1, rng.randint(0, 6))
+    r = rng.random()
+    if r < 0.45:
+        ops2 = [dict(o) for o in ops1]
+    elif r < 0.75:
+        ops2 = [dict(o) for o in ops1]
+        ops2.insert(rng.randint(0, len(ops2)), gen_op(rng, c2))
+    else:
+        ops2 = gen_ops(rng, c2, rng.randint(0, 6))
+    if rng.random() < 0.5:
+        # bring both to the same names first
+        same = [{"op": "update", "items": [[["pair", ns, n], "1"] for ns, n in rng.sample([(a, b) for a in NSS for b in NAMES], 3)]}]
+        if rng.random() < 0.5:
+            same.insert(0, {"op": "clear"})
+        ops1, ops2 = same + ops1, [dict(o) for o in same] + ops2
+    return {"ctx": c1["name"], "ops": ops1 + [{"op": "eq"}], "other": {"ctx": c2["name"], "ops": ops2}}
+
+
+def ctx_named(name):
+    return next(x for x in CONTEXTS + DEFECT_CONTEXTS if x["name"] == name)
+
+
+def defect_cases():
+    """one fixed case per recorded finding that needs its own element (the `replay` of its known_findings.json entry)"""
+    return [
+        {"ctx": "prefix bound to the default namespace", "finding": "prefixed-attribute-in-default-namespace",
+         "ops": [{"op": "iter"}, {"op": "len"}, {"op": "contains", "acc": ["pair", "urn:u", "a"]},
+                 {"op": "getvalue", "acc": ["clark", "urn:u", "a"]}, {"op": "get", "acc": ["pair", "urn:u", "a"]}]},
+    ]
+
+
+def initial_store(ctx):
+    from lxml import etree
+
+    d, node = make_node(ctx)
+    init = []
+    for k, v in node._etree_obj.attrib.items():
+        q = etree.QName(k)
+        init.append([q.namespace, q.localname, v])
+    return init
+
+
 def run_cases(run: Run, cases, stream, lean_ok=True):
     rows = []
     for c in cases:
-        ctx = next(x for x in CONTEXTS if x["name"] == c["ctx"])
-        results, resolved, problems, final = run_impl(ctx, c["ops"])
-        run.case(stream, c, any(o and o["op"].startswith("view") for o in resolved))
+        ctx = ctx_named(c["ctx"])
+        other = oresults = oresolved = None
+        if c.get("other"):
+            octx = ctx_named(c["other"]["ctx"])
+            oresults, oresolved, oproblems, _, other = run_impl(octx, no_eq_ops(c["other"]["ops"]))
+            for pr in oproblems:
+                run.violation(stream, c, dict(pr, side="other"))
+        results, resolved, problems, final, _ = run_impl(ctx, c["ops"] if other else no_eq_ops(c["ops"]), other)
+        run.case(stream, c, any(o and o["op"].startswith("view") for o in resolved) or bool(other))
         run.count("context", c["ctx"])
         for o in resolved:
             if o:
-                run.count("op", o["op"])
-        for pr in problems:
-            if not is_known(pr):
+                run.count("op", o["op"] + (" (node subscript)" if o.get("via") == "node" else ""))
+        for r, o in zip(results, resolved):
+            if o and o["op"] == "eq":
+                run.count("collections compared", "equal" if r == [True, True] else "different" if r == [False, False] else str(r))
+            if o and o["op"] == "eq_mapping":
+                run.count("plain mapping compared", f"{o['form']}: {r}")
+        if c.get("finding") and problems and c["finding"] in open_findings():
+            # an open finding masks exactly its own fixed case
+            if c["finding"] not in run.known_hit:
+                f = open_findings()[c["finding"]]
+                print(f"KNOWN-FINDING: property=C11 {f['key']}: {f['description']}")
+                run.known_hit.append(c["finding"])
+            run.count("known finding hit", c["finding"])
+        else:
+            if c.get("finding") and not problems:
+                run.notes.append(f"finding {c['finding']} no longer reproduces")
+            for pr in problems:
                 run.violation(stream, c, pr)
-            else:
-                run.count("known finding hit", "stale-attribute-view")
-        rows.append((c, ctx, results, resolved, final))
+        rows.append((c, ctx, results, resolved, final, oresults, oresolved))
     if not (lean_ok and rows):
         return
     reqs = []
-    for c, ctx, results, resolved, final in rows:
-        from lxml import etree
-        from delb import Document
-
-        d, node = make_node(ctx)
-        init = []
-        for k, v in node._etree_obj.attrib.items():
-            q = etree.QName(k)
-            init.append([q.namespace, q.localname, v])
-        reqs.append({"cmd": "attrs", "node_ns": ctx["node_ns"], "default_ns": ctx["default_ns"], "init": init,
-                     "ops": [o for o in resolved if o]})
-    for (c, ctx, results, resolved, final), m in zip(rows, run_driver(reqs)):
+    for c, ctx, results, resolved, final, oresults, oresolved in rows:
+        req = {"cmd": "attrs", "node_ns": ctx["node_ns"], "default_ns": ctx["default_ns"], "init": initial_store(ctx),
+               "ops": [o for o in resolved if o]}
+        if oresolved is not None:
+            octx = ctx_named(c["other"]["ctx"])
+            req["other"] = {"node_ns": octx["node_ns"], "default_ns": octx["default_ns"], "init": initial_store(octx),
+                            "ops": [o for o in oresolved if o]}
+        reqs.append(req)
+    for (c, ctx, results, resolved, final, oresults, oresolved), m in zip(rows, run_driver(reqs)):
         if "driver_error" in m:
             raise common.ToolFailure(str(m))
         got = [r for r, o in zip(results, resolved) if o]
@@ -305,8 +606,16 @@ def run_cases(run: Run, cases, stream, lean_ok=True):
         # view ids: both sides number views in order of first appearance *as objects*; the model numbers them at creation.
         if normalise(got) != normalise(want):
             run.mismatch(stream, c, got, want)
+        elif c.get("finding"):
+            continue  # the element cannot be read through the names it iterates: results are compared, dictionaries are not
         elif sorted(m["dict"]) != final:
             run.mismatch(stream, c, final, m["dict"], "final dictionary differs")
+        elif sorted(m["reported"]) != sorted([*reported(ctx, (ns, n)), v] for ns, n, v in final):
+            run.mismatch(stream, c, final, m["reported"], "dictionary of reported names differs")
+        elif oresolved is not None:
+            ogot = [r for r, o in zip(oresults, oresolved) if o]
+            if normalise(ogot) != normalise(m["other_results"]):
+                run.mismatch(stream, c, ogot, m["other_results"], "second collection: impl != model")
 
 
 def normalise(results):
@@ -315,53 +624,75 @@ def normalise(results):
     out = []
     for r in results:
         if isinstance(r, dict) and "view" in r:
-            out.append({"view": seen.setdefault(r["view"], len(seen))})
+            out.append(dict(r, view=seen.setdefault(r["view"], len(seen))))
         else:
             out.append(r)
     return out
 
 
 def corpus():
-    return [
-        {"ctx": "default namespace", "ops": [{"op": "get", "acc": ["local", "a"]}, {"op": "pop", "acc": ["pair", "", "a"]},
-                                             {"op": "view_value", "pick": 0.0}]},
-        {"ctx": "no namespace", "ops": [{"op": "get", "acc": ["local", "a"]}, {"op": "set", "acc": ["local", "a"], "value": "x"},
-                                        {"op": "view_value", "pick": 0.0}, {"op": "del", "acc": ["local", "a"]},
-                                        {"op": "view_value", "pick": 0.0}]},
-        {"ctx": "no namespace", "ops": [{"op": "get", "acc": ["local", "a"]}, {"op": "view_rename", "pick": 0.0, "ns": "urn:q", "name": "c"},
-                                        {"op": "iter"}, {"op": "view_value", "pick": 0.0}, {"op": "del", "acc": ["pair", "urn:q", "c"]},
-                                        {"op": "view_value", "pick": 0.0}]},
+    get_a = {"op": "get", "acc": ["local", "a"]}
+    value0 = {"op": "view_value", "pick": 0.0}
+    cases = [
+        # the former findings stale-attribute-view and rename-to-alias-deletes
+        {"ctx": "default namespace", "ops": [get_a, {"op": "pop", "acc": ["pair", "", "a"]}, value0]},
+        {"ctx": "no namespace", "ops": [get_a, {"op": "set", "acc": ["local", "a"], "value": "x"}, value0,
+                                        {"op": "del", "acc": ["local", "a"]}, value0]},
+        {"ctx": "no namespace", "ops": [get_a, {"op": "view_rename", "pick": 0.0, "ns": "urn:q", "name": "c", "by": "key"},
+                                        {"op": "iter"}, value0, {"op": "del", "acc": ["pair", "urn:q", "c"]}, value0]},
+        {"ctx": "default namespace", "ops": [get_a, {"op": "view_rename", "pick": 0.0, "ns": "", "name": "a", "by": "key"},
+                                             {"op": "contains", "acc": ["local", "a"]}, value0,
+                                             {"op": "get", "acc": ["pair", "", "a"]}, {"op": "get", "acc": ["clark", "urn:u", "a"]}]},
+        # a rename supersedes an attribute whose object is held
+        {"ctx": "no namespace", "ops": [get_a, {"op": "get", "acc": ["local", "b"]},
+                                        {"op": "view_rename", "pick": 0.0, "ns": "", "name": "b", "by": "parts"},
+                                        value0, {"op": "view_value", "pick": 0.5}, {"op": "iter"}, {"op": "get", "acc": ["local", "b"]}]},
+        # node subscripts, update, popitem, clear, setdefault
+        {"ctx": "prefixed element", "ops": [{"op": "get", "acc": ["pair", "", "a"], "via": "node"},
+                                            {"op": "set", "acc": ["local", "b"], "value": "x", "via": "node"},
+                                            {"op": "update", "items": [[["pair", "", "a"], "y"], [["clark", "urn:q", "c"], "z z"]]},
+                                            value0, {"op": "popitem"}, {"op": "setdefault", "acc": ["local", "c"], "value": "x"},
+                                            {"op": "del", "acc": ["local", "b"], "via": "node"}, {"op": "clear"}, value0, {"op": "len"}]},
+        {"ctx": "default namespace", "ops": [{"op": "eq_mapping", "form": f, "pick": 0.0}
+                                             for f in ("tuples", "clark", "canonical", "changed", "missing", "extra")]},
+        {"ctx": "prefixed element", "ops": [{"op": "eq_mapping", "form": f, "pick": 0.6}
+                                            for f in ("tuples", "clark", "canonical", "changed", "missing", "extra")]},
     ]
+    # equality of collections of elements with different namespaces in scope
+    for a, b in (("no namespace", "created plain"), ("no namespace", "default namespace"), ("default namespace", "detached default namespace"),
+                 ("prefixed element", "detached prefixed"), ("no namespace", "undeclared default"), ("foreign attributes", "no namespace")):
+        cases.append({"ctx": a, "ops": [{"op": "eq"}], "other": {"ctx": b, "ops": []}})
+        same = [{"op": "clear"}, {"op": "update", "items": [[["pair", "", "a"], "1"], [["pair", "urn:u", "b"], "2"]]}]
+        cases.append({"ctx": a, "ops": same + [{"op": "eq"}], "other": {"ctx": b, "ops": same}})
+    return cases
 
 
 def check(run: Run, lean: dict) -> int:
     n = 1500 if run.tier == "quick" else 40000
     run.extra["rule"] = (
-        "5 element contexts (no namespace; prefixed element; default namespace; foreign-namespace attributes; xmlns='' under a "
-        "default) x sequences of 4-14 operations over a 3x3 key alphabet through all accessor forms (local name, Clark, pair): "
-        "set, del, get, pop, in, get(), iteration, len, and value/set/rename through previously fetched Attribute objects; "
-        "results compared after every step; non-trivial = sequence uses a held Attribute object"
+        "9 element contexts (no namespace; prefixed element; default namespace; foreign-namespace attributes; xmlns='' under a "
+        "default; created plain / namespaced; detached prefixed / default-namespace) x sequences of 4-14 operations over a "
+        "3x3 key alphabet through all accessor forms (local name, Clark, pair), on the mapping and as node subscripts: set, "
+        "del, get, pop, in, get(), iteration, len, update, popitem, clear, setdefault, assignment of an Attribute object, "
+        "comparison with plain dicts (by reported tuples, Clark names, canonical tuples, one value changed, one key missing, "
+        "one extra), and value/name/set/rename through previously fetched Attribute objects; results compared with the model after "
+        "every step, the dictionary oracle and the record of every held object checked after every step; second stream: "
+        "pairs of contexts after 0-8 operations each, compared with == and != in both orders against equality of the "
+        "dictionaries of reported names; non-trivial = sequence uses a held Attribute object or compares two collections"
     )
     ok = lean.get("driver_ok", True)
-    for f in common.known_findings("C11"):
-        if f.get("status") != "open":
-            continue
-        ctx = next(x for x in CONTEXTS if x["name"] == f["replay"]["ctx"])
-        ops = [dict(o, replay_known=True) for o in f["replay"]["ops"]]
-        _, _, problems, _ = run_impl(ctx, ops)
-        if problems:
-            print(f"KNOWN-FINDING: property=C11 {f['key']}: {f['description']}")
-            run.known_hit.append(f["key"])
-        else:
-            run.notes.append(f"known finding {f['key']} no longer reproduces")
-    run_cases(run, corpus(), "corpus", ok)
+    fixed = [{"ctx": f["replay"]["ctx"], "ops": f["replay"]["ops"]} for f in common.known_findings("C11")
+             if f.get("status") == "fixed" and "ops" in f.get("replay", {})]
+    run_cases(run, corpus() + fixed + defect_cases(), "corpus", ok)
     run_cases(run, [gen_case(run.rng) for _ in range(n)], "generated", ok)
+    run_cases(run, [gen_eq_case(run.rng) for _ in range(n // 3)], "equality", ok)
     return run.finish(lean, LEVEL, ASSUME, search=search)
 
 
 def search(run: Run):
     probe = Run(run.prop, run.tier, run.seed)
-    cases = [m["case"] for m in run.mismatches] + corpus() + [gen_case(probe.rng) for _ in range(20000)]
+    cases = ([m["case"] for m in run.mismatches] + corpus() + defect_cases() + [gen_case(probe.rng) for _ in range(20000)]
+             + [gen_eq_case(probe.rng) for _ in range(5000)])
     run_cases(probe, cases, "search", False)
     return [probe.violations[0]] if probe.violations else None
 
